@@ -1,6 +1,6 @@
 (* C03 — Status roll-up of scenario, outline, rule, feature follows the documented table.
    Statements only; every proof is `exact <lemma of RollupProofs/RunnerRollup>`. *)
-From BV Require Import Base Status Rollup RollupProofs RollupCutShort.
+From BV Require Import Base Status Rollup RollupProofs RollupCutShort RollupOutlineError.
 From BVGen Require Import StatusTable.
 
 (* --- the classification itself (generated tables, all 16 members) *)
@@ -228,6 +228,20 @@ Theorem outline_cut_short_after_passed_is_failed :
     outline_compute expected (pre ++ untested :: post) = failed.
 Proof. exact outline_cut_short_is_failed. Qed.
 Print Assumptions outline_cut_short_after_passed_is_failed.
+
+(* the first failing row decides, with the status it has from outside: an error-class row (error, hook error, cleanup error,
+   undefined, pending) makes the outline error - never hook_error -, a failed row makes it failed *)
+Theorem outline_first_failing_row_decides_with_its_outer_status :
+  forall expected pre s post, forallb quiet_row pre = true -> has_failed (from_inner s) = true ->
+    outline_compute expected (pre ++ s :: post) = from_inner s.
+Proof. exact outline_first_failing_row_decides. Qed.
+Print Assumptions outline_first_failing_row_decides_with_its_outer_status.
+
+Theorem outline_with_an_error_class_row_first_is_error :
+  forall expected pre s post, forallb quiet_row pre = true -> is_error s = true ->
+    outline_compute expected (pre ++ s :: post) = error.
+Proof. exact outline_error_row_first_gives_error. Qed.
+Print Assumptions outline_with_an_error_class_row_first_is_error.
 
 Example a_row_passed_then_the_run_was_aborted :
   outline_compute 3 [passed; untested; untested] = failed /\ outline_compute 3 [skipped; untested; untested] = untested.
